@@ -45,7 +45,11 @@ func (f *Numerator) Call(s *slip.Scope, args slip.List, depth int) (result slip.
 	case slip.Fixnum, *slip.Bignum:
 		result = ta
 	case *slip.Ratio:
-		result = (*slip.Bignum)((*big.Rat)(ta).Num())
+		if bi := (*big.Rat)(ta).Num(); bi.IsInt64() {
+			result = slip.Fixnum(bi.Int64())
+		} else {
+			result = (*slip.Bignum)(bi)
+		}
 	default:
 		slip.TypePanic(s, depth, "rational", args[0], "rational")
 	}
